@@ -1125,7 +1125,7 @@ package tchannel
 
 //@ func (c *Connection) SendSystemError(id uint32, span Span, err error) (sendErr error)
 //@   nosafety
-//@   modifies allbut InboundCallResponse, Relayer, relayItems, relayItem, messageExchange, messageExchangeSet, connFailed, connFailSys, lookupHit, nadmit, admitted
+//@   modifies allbut InboundCallResponse, Relayer, relayItems, relayItem, messageExchange, messageExchangeSet, connFailed, connFailSys, lookupHit, nadmit, admitted, nends, ndec
 //@   defines errAttempts(c) == old(errAttempts(c)) + 1
 //@   property C07 C20
 
